@@ -107,6 +107,10 @@ SPEC = Spec(
         "translators/cmd/gofunlean (c05): BackOffConfig / TimeoutConfig (structs, defaults incl. the two constants read from the "
         "cenkalti/backoff version config/configretry/go.mod requires, Validate) and otlpexporter.shouldRetry are compiled from the Go source "
         "into Lean definitions on every run and the model is proved equal to them (C05_src_validate_backoff / _timeout / _grpc_retryable); "
+        "the loop body of retrySender.Send between the call of the next sender and the blocking select is compiled into RetryCfg.retryStep "
+        "(leaf conditions mapped to inputs by their exact source text, exit 2 on anything unknown) and proved equal to the model's iteration "
+        "(C05_src_retry_step, C05_run_iteration); timeoutSender.Send is checked literally (context.WithTimeout is a primitive); the for / "
+        "blocking select / timer structure stays hand-modelled; "
         "shape tables of the four OnError methods, the four partial-failure constructors, internal.Retryable and NewBaseExporter's sender "
         "chain; statement skeletons (tracing / logging removed) of retrySender.Send / Shutdown, NewThrottleRetry, timeoutSender.Send, "
         "experr, consumererror permanent, processError and of the library's NextBackOff / incrementCurrentInterval / "
